@@ -239,7 +239,9 @@ class SuperProxy(Sym):
 class Loop:
     """Loop contract: invariant(cx, env[, i]) -> z3 Bool; optional decreases(cx, env) -> z3 Int term."""
 
-    def __init__(self, invariant, decreases=None, havoc=None, label=None, extra_modifies=()):
+    def __init__(self, invariant, decreases=None, havoc=None, label=None, extra_modifies=(), on_havoc=None, match=None):
+        self.match = match  # substring of the loop header (`for x in y` / `while cond`) this contract belongs to
+        self.on_havoc = on_havoc  # callback(cx, env): havoc ghost state the loop body may change
         self.invariant = invariant
         self.decreases = decreases
         self.havoc = havoc or {}
@@ -318,6 +320,7 @@ class Interp:
         if exc_parents:
             self.exc_parents.update(exc_parents)
         self.loop_counter = 0
+        self.loop_ids = {}
         self.current_exc = None
         self.module_names = module_names or set()
         self.fnname = fnname
@@ -378,6 +381,25 @@ class Interp:
             env.vars[a.kwarg.arg] = kwargs
         elif kwargs:
             raise PyRaise('TypeError', note='unexpected keyword arguments %s' % sorted(kwargs))
+
+    def index_loops(self, node):
+        """Static ordinals of the while/for statements of the function under contract, in source order."""
+        k = 0
+        stack = list(reversed(node.body))
+        order = []
+
+        def visit(stmts):
+            for st in stmts:
+                if isinstance(st, (ast.FunctionDef, ast.ClassDef, ast.AsyncFunctionDef)):
+                    continue
+                if isinstance(st, (ast.While, ast.For)):
+                    order.append(st)
+                for field in ('body', 'orelse', 'finalbody', 'handlers'):
+                    sub = getattr(st, field, None)
+                    if sub:
+                        visit([h for h in sub] if field != 'handlers' else [x for h in sub for x in h.body])
+        visit(node.body)
+        self.loop_ids = {id(st): i for i, st in enumerate(order)}
 
     def call_function(self, node, args=(), kwargs=None, closure_env=None):
         env = Env(closure_env)
@@ -641,13 +663,25 @@ class Interp:
         raise _Continue()
 
     # ---- loops
-    def loop_contract(self):
-        k = self.loop_counter
-        self.loop_counter += 1
-        return k, self.loops.get(k)
+    def loop_contract(self, node=None):
+        k = self.loop_ids.get(id(node))
+        if k is None:
+            return -1, None
+        if isinstance(node, ast.For):
+            header = 'for %s in %s' % (ast.unparse(node.target), ast.unparse(node.iter))
+        else:
+            header = 'while %s' % ast.unparse(node.test)
+        matched = [lc for lc in self.loops.values() if getattr(lc, 'match', None) and lc.match in header]
+        if matched:
+            return k, matched[0]
+        lc = self.loops.get(k)
+        if lc is not None and getattr(lc, 'match', None):
+            # the contract written for this position names a different loop header: the code was restructured
+            return k, None
+        return k, lc
 
     def st_While(self, s, env):
-        k, lc = self.loop_contract()
+        k, lc = self.loop_contract(s)
         ctx = self.ctx
         if lc is None:
             # no invariant: only loops whose guard becomes concrete can be unrolled
@@ -678,11 +712,13 @@ class Interp:
                     continue
         label = lc.label or 'loop%d' % k
         ctx.oblige('%s:init' % label, lc.invariant(ctx, env), info={'line': s.lineno})
-        for nm in list(assigned_names(s.body)) + list(lc.extra_modifies):
+        for nm in list(assigned_names(s.body + [ast.Expr(s.test)])) + list(lc.extra_modifies):
             if nm in lc.havoc:
                 env.store(nm, lc.havoc[nm](ctx, env))
             elif env.has(nm):
                 env.store(nm, fresh_like(ctx, env.lookup(nm), '%s@%s' % (nm, label)))
+        if lc.on_havoc:
+            lc.on_havoc(ctx, env)
         ctx.assume(lc.invariant(ctx, env))
         if ctx.branch(self.cond(s.test, env)):
             m0 = lc.decreases(ctx, env) if lc.decreases else None
@@ -700,7 +736,7 @@ class Interp:
         self.block(s.orelse, env)
 
     def st_For(self, s, env):
-        k, lc = self.loop_contract()
+        k, lc = self.loop_contract(s)
         ctx = self.ctx
         it = self.expr(s.iter, env)
         if lc is None:
@@ -726,6 +762,8 @@ class Interp:
                 env.store(nm, lc.havoc[nm](ctx, env))
             elif env.has(nm):
                 env.store(nm, fresh_like(ctx, env.lookup(nm), '%s@%s' % (nm, label)))
+        if lc.on_havoc:
+            lc.on_havoc(ctx, env)
         i = ctx.int('i@' + label, report=False)
         ctx.assume(z3.And(i >= 0, i <= n))
         ctx.assume(lc.invariant(ctx, env, i))
